@@ -19,6 +19,35 @@ pub struct ScriptCase {
     pub script: Vec<SOp>,
     /// 0 Compact<Capture>, 1 Replace<Capture>, 2 Compact<Replace<Capture>>, 3 Replace<Compact<Capture>>
     pub stack: u8,
+    /// the script covers old[base.0..] and new[base.1..] (the items before are padding that the
+    /// script never mentions): index arithmetic with non-zero bases
+    #[serde(default)]
+    pub base: (usize, usize),
+}
+
+impl ScriptCase {
+    /// pads both sequences in front and shifts the script accordingly
+    pub fn with_base(mut self, pad_old: Vec<u32>, pad_new: Vec<u32>) -> ScriptCase {
+        let (po, pn) = (pad_old.len(), pad_new.len());
+        self.script = self
+            .script
+            .iter()
+            .map(|s| match *s {
+                SOp::Equal(a, b, l) => SOp::Equal(a + po, b + pn, l),
+                SOp::Delete(a, l, b) => SOp::Delete(a + po, l, b + pn),
+                SOp::Insert(a, b, l) => SOp::Insert(a + po, b + pn, l),
+                SOp::Replace(a, al, b, bl) => SOp::Replace(a + po, al, b + pn, bl),
+            })
+            .collect();
+        let mut o = pad_old;
+        o.extend(self.old);
+        let mut n = pad_new;
+        n.extend(self.new);
+        self.old = o;
+        self.new = n;
+        self.base = (self.base.0 + po, self.base.1 + pn);
+        self
+    }
 }
 
 /// builds a valid script from a list of choices (kind, len); deterministic interpreter
@@ -60,12 +89,12 @@ pub fn build_script(old: &[u32], new: &[u32], choices: &[(u8, u8)]) -> Vec<SOp> 
                 j += l;
             }
             1 => {
-                let l = len.min(n - i).min(3);
+                let l = len.min(n - i).min(if len == 255 { 3 } else { 12 });
                 out.push(SOp::Delete(i, l, j));
                 i += l;
             }
             _ => {
-                let l = len.min(m - j).min(3);
+                let l = len.min(m - j).min(if len == 255 { 3 } else { 12 });
                 out.push(SOp::Insert(i, j, l));
                 j += l;
             }
@@ -81,8 +110,8 @@ pub fn script_is_valid(c: &ScriptCase) -> Result<(), String> {
     // exact carried indices are part of the generator contract: single-event runs are exact by
     // validate_raw; multi-event runs are checked here
     let (old, new) = (&c.old, &c.new);
-    validate_raw(&ev2, 0..old.len(), 0..new.len(), &|i, j| old[i] == new[j])?;
-    let (mut co, mut cn) = (0, 0);
+    validate_raw(&ev2, c.base.0..old.len(), c.base.1..new.len(), &|i, j| old[i] == new[j])?;
+    let (mut co, mut cn) = c.base;
     for e in &ev {
         match *e {
             Ev::Equal(_, _, l) => {
@@ -176,7 +205,7 @@ pub fn check_case(c: &ScriptCase, obs: &mut Obs) -> Verdict {
         Ok(Err(m)) => return Verdict::Fail(format!("{}: {}", name, m)),
         Err(p) => return Verdict::Fail(format!("{} on script {:?}: {}", name, c.script, p)),
     };
-    if let Err(m) = validate_ops(&ops, 0..old.len(), 0..new.len(), &eq) {
+    if let Err(m) = validate_ops(&ops, c.base.0..old.len(), c.base.1..new.len(), &eq) {
         return Verdict::Fail(format!("{}: script {:?} -> ops {:?}: {}", name, c.script, ops, m));
     }
     // a script of positive-length calls comes out as ops of positive length
@@ -205,7 +234,7 @@ pub fn check_case(c: &ScriptCase, obs: &mut Obs) -> Verdict {
         }
     }
     if stack == 1 {
-        if let Err((_, m)) = carried_exact(&ops, 0, 0) {
+        if let Err((_, m)) = carried_exact(&ops, c.base.0, c.base.1) {
             return Verdict::Fail(format!("{}: script {:?} -> ops {:?}: {}", name, c.script, ops, m));
         }
         // one Replace adapter used for two scripts in a row (segment-by-segment use): every script is
@@ -254,9 +283,9 @@ pub fn strat(tier: Tier) -> BoxedStrategy<ScriptCase> {
         )),
         2 => seq_pair(l),
     ];
-    let small = (pair, vec((prop_oneof![4 => Just(0u8), 2 => Just(1u8), 2 => Just(2u8), 1 => Just(3u8)], 1u8..4), 0..=24), 0u8..5).prop_map(|((old, new), choices, stack)| {
+    let small = (pair, vec((prop_oneof![4 => Just(0u8), 2 => Just(1u8), 2 => Just(2u8), 1 => Just(3u8)], prop_oneof![9 => 1u8..4, 1 => 4u8..13]), 0..=24), 0u8..5, prop_oneof![2 => Just((vec![], vec![])), 1 => (vec(0u32..3, 0..=4), vec(0u32..3, 0..=4))]).prop_map(|((old, new), choices, stack, (po, pn))| {
         let script = build_script(&old, &new, &choices);
-        ScriptCase { old, new, script, stack }
+        ScriptCase { old, new, script, stack, base: (0, 0) }.with_base(po, pn)
     });
     // long runs: equal() calls of hundreds of items next to edits that repeat the run's items
     let long = (1usize..3, 100usize..400, vec((any::<u16>(), 0u8..3, 1u8..4), 1..=4), vec((prop_oneof![6 => Just(0u8), 1 => Just(1u8), 1 => Just(2u8)], prop_oneof![1 => 1u8..4, 3 => Just(255u8)]), 0..=10), 0u8..5).prop_map(|(p, n, edits, choices, stack)| {
@@ -282,7 +311,7 @@ pub fn strat(tier: Tier) -> BoxedStrategy<ScriptCase> {
             }
         }
         let script = build_script(&old, &new, &choices);
-        ScriptCase { old, new, script, stack }
+        ScriptCase { old, new, script, stack, base: (0, 0) }
     });
     prop_oneof![60 => small, 1 => long].boxed()
 }
@@ -330,7 +359,7 @@ pub fn enum_scripts(tier: Tier, f: &mut dyn FnMut(ScriptCase) -> bool) {
             let mut cur = vec![];
             let ok = all_scripts(a, b, 0, 0, &mut cur, &mut |s: &[SOp]| {
                 for stack in 0..5u8 {
-                    if !f(ScriptCase { old: a.clone(), new: b.clone(), script: s.to_vec(), stack }) {
+                    if !f(ScriptCase { old: a.clone(), new: b.clone(), script: s.to_vec(), stack, base: (0, 0) }) {
                         return false;
                     }
                 }
@@ -347,7 +376,7 @@ impl Prop for C10 {
     type Case = ScriptCase;
     const ID: &'static str = "C10";
     fn rule() -> String {
-        "cases = (old, new, valid edit script as a history of equal/delete/insert hook calls with exact indices, adapter stack in {Compact, Replace, Compact<Replace>, Replace<Compact>, Compact<&mut Replace<&mut Capture>> (adapters that only borrow the hook behind them)}); 1 case in ~60 uses periodic sequences of 100-400 items so that single equal() calls span hundreds of items next to edits that repeat the run's items; scripts are built by an interpreter from a generated list of choices (so run splitting, insert-before-delete and non-minimal scripts all occur) and, in the enumeration stage, by a DFS over ALL valid scripts (with run splitting) of all pairs over {0,1} with lengths <= 3. Oracle: output is a valid script (walk + element equality), same number of deleted and of inserted items, nothing forwarded by Compact before finish, normal form through both adapters, exact carried indices through Replace alone (also when ONE Replace adapter is fed the script twice, finish after each), no panic. Non-trivial = script has >= 2 calls incl. a change and the adapter output differs from the input; distinct = distinct serialized case. The generator validates every script with the C01 stream validator before use (failure => exit 2).".into()
+        "cases = (old, new, valid edit script as a history of equal/delete/insert hook calls with exact indices, adapter stack in {Compact, Replace, Compact<Replace>, Replace<Compact>, Compact<&mut Replace<&mut Capture>> (adapters that only borrow the hook behind them)}); 1 case in ~60 uses periodic sequences of 100-400 items so that single equal() calls span hundreds of items next to edits that repeat the run's items; scripts are built by an interpreter from a generated list of choices (so run splitting, insert-before-delete and non-minimal scripts all occur); a third of the random scripts cover old[a..] / new[b..] behind 0-4 padding items (non-zero index bases), single calls are up to 12 items long and, in the enumeration stage, by a DFS over ALL valid scripts (with run splitting) of all pairs over {0,1} with lengths <= 3. Oracle: output is a valid script (walk + element equality), same number of deleted and of inserted items, nothing forwarded by Compact before finish, normal form through both adapters, exact carried indices through Replace alone (also when ONE Replace adapter is fed the script twice, finish after each), no panic. Non-trivial = script has >= 2 calls incl. a change and the adapter output differs from the input; distinct = distinct serialized case. The generator validates every script with the C01 stream validator before use (failure => exit 2).".into()
     }
     fn assumptions() -> Vec<String> {
         vec!["scripts are driven through DiffOp::apply_to_hook + finish as in the library's own Compact::finish".into()]
